@@ -56,6 +56,15 @@ def run(pid, tier):
                          ("select", dict(TW=3, PW=2, NDev=2 if q else 3, WideSum=True, Sync1Checked=True))):
         cfg = lib.cfg_text(init="DsInit", next_="DsNext", constants=consts, invariants=inv)
         sc.mc(name, "DcSync", cfg, workers=8)
+    # vacuity guard: an unchecked SYNC1 period must spill in the model
+    ctl = lib.cfg_text(init="DsInit", next_="DsNext", constants=dict(TW=3, PW=2, NDev=2, WideSum=True, Sync1Checked=False),
+                       invariants=["NoSpill"])
+    dctl = os.path.join(sc.wd, "mc-control")
+    os.makedirs(dctl, exist_ok=True)
+    rc = lib.tlc(dctl, "DcSync", ctl, workers=4, timeout=600, heap="4g")
+    if "NoSpill" not in (rc.violated or []):
+        raise lib.ToolError(f"control: DcSync.tla with Sync1Checked=FALSE does not spill ({rc.violated}, {rc.error})")
+    lib.log("control: Sync1Checked=FALSE writes beyond the SYNC1 register in the model, as it must")
     # 2. true widths with Apalache (proof obligations of the arithmetic)
     obligations = 0
     for inv_name in ("StartInv", "CycleInv"):
